@@ -224,6 +224,11 @@ func initials(thorough bool) []gen.ListSpec {
 		}
 	})
 	out = append(out, wideStar(true))
+	// identifiers that coincide under case folding or trimming next to the ones the operations name
+	out = append(out,
+		gen.ListSpec{Nodes: []string{"a", "A", "a "}, Edges: []gen.EdgeSpec{{From: "a", Type: tc, To: []string{"A", "a "}}, {From: "A", Type: td, To: []string{"a"}}}, Roots: []string{"a", "A"}},
+		gen.ListSpec{Nodes: []string{"A", "b", "B", "c "}, Edges: []gen.EdgeSpec{{From: "A", Type: tc, To: []string{"b", "B"}}, {From: "B", Type: tc, To: []string{"c "}}}, Roots: []string{"A"}},
+	)
 	return out
 }
 
